@@ -20,7 +20,14 @@ func opHuge(f []string) string {
 	if n != 0 {
 		txt += "x" + strconv.Itoa(n)
 	}
-	sq := "/d/f." + txt + "#.exr"
+	// the pad token varies with the operands: width 4, 12 or 15 (mirrors GfsModel.OpsHuge)
+	abs := func(v int) int {
+		if v < 0 {
+			return -v
+		}
+		return v
+	}
+	sq := "/d/f." + txt + []string{"#", "###", "%015d"}[(abs(a)+abs(b))%3] + ".exr"
 	var ms0, ms1 runtime.MemStats
 	runtime.GC()
 	runtime.ReadMemStats(&ms0)
